@@ -66,6 +66,10 @@ def gen_structure(seed, tier, i):
         return structures.gen_many(s, 10, 16)
     if mode < 0.35:
         return structures.gen_broom(s)
+    if mode < 0.365:
+        # 10-13 (nearly) mutually crossing stems: the optimum itself needs two-digit levels and the letter
+        # brackets.  Beyond both exact 0-1 stubs; answered by the real CBC binary only (see phase_a)
+        return structures.gen_near_ladder(s)
     return structures.gen_structure(s, max_stems=8, max_len=4, knotted_bias=0.85, template_p=0.3)
 
 
@@ -74,6 +78,9 @@ def phase_a(seed, tier, i, st):
     n, pairs = oracles.pairs_of_triples(st["triples"])
     knotted = oracles.is_knotted(pairs)
     base = {"triples": st["triples"], "op": "dot_bracket"}
+    if st["family"].startswith("nearladder"):
+        steps = [dict(base, via=cfg.choice(["property", "argument"]), backend="real-cbc", fault={"kind": "ok"})]
+        return {"property": NAME, "family": st["family"], "steps": steps}
     steps = [dict(base, via="property", backend="sim-api", fault={"kind": "ok", "tie": 0})]
     if knotted:
         steps.append(dict(base, via="argument", backend="cbc-wrapper", fault={"kind": "ok", "tie": cfg.randrange(1 << 12)}))
